@@ -392,6 +392,53 @@ func (ex *Exec) initIntrinsics() {
 		iv := args[0].(IfaceV)
 		return FuncV{Native: "swapper", Recv: iv.V}
 	}
+	in["internal/reflectlite.TypeOf"] = func(ex *Exec, st *State, args []Value, site ssa.CallInstruction) Value {
+		return rtypeIface(args[0].(IfaceV).T)
+	}
+	for _, n := range []string{"internal/godebug.setUpdate", "internal/godebug.registerMetric", "internal/godebug.setNewIncNonDefault"} {
+		in[n] = nop
+	}
+	in["sync.runtime_registerPoolCleanup"] = nop
+	in["sync.runtime_notifyListCheck"] = nop
+	in["regexp.MustCompile"] = func(ex *Exec, st *State, args []Value, site ssa.CallInstruction) Value {
+		return Ptr{Obj: st.alloc(StructV{args[0]}, nil)} // opaque; regexp methods are not modelled
+	}
+	in["net.Interfaces"] = func(ex *Exec, st *State, args []Value, site ssa.CallInstruction) Value {
+		return TupleV{SliceV{}, IfaceV{}}
+	}
+	in["runtime/debug.ReadBuildInfo"] = func(ex *Exec, st *State, args []Value, site ssa.CallInstruction) Value {
+		return TupleV{Ptr{}, c.False}
+	}
+	envFill := func(ex *Exec, st *State, s SliceV) {
+		n := int(st.constInt(s.Len, "random buffer length"))
+		vals := make([]Value, n)
+		for i := range vals {
+			if ex.inInit {
+				vals[i] = c.BV(8, 0xA4)
+			} else {
+				vals[i] = st.newInput("envrand", 8, "vU8")
+			}
+		}
+		if n > 0 {
+			st.writeCells(s.Obj, s.Path, s.Off, vals, s.Len)
+		}
+	}
+	in["crypto/rand.Read"] = func(ex *Exec, st *State, args []Value, site ssa.CallInstruction) Value {
+		s := args[0].(SliceV)
+		envFill(ex, st, s)
+		return TupleV{s.Len, IfaceV{}}
+	}
+	in["io.ReadFull"] = func(ex *Exec, st *State, args []Value, site ssa.CallInstruction) Value {
+		r := args[0].(IfaceV)
+		if r.T != nil {
+			unsupported("io.ReadFull from %s must be stubbed by the harness", r.T)
+		}
+		// nil reader = crypto/rand.Reader (package state not initialised): environment bytes
+		s := args[1].(SliceV)
+		envFill(ex, st, s)
+		return TupleV{s.Len, IfaceV{}}
+	}
+	in["syscall.runtime_envs"] = func(ex *Exec, st *State, args []Value, site ssa.CallInstruction) Value { return SliceV{} }
 	in["internal/reflectlite.ValueOf"] = func(ex *Exec, st *State, args []Value, site ssa.CallInstruction) Value {
 		iv := args[0].(IfaceV)
 		return ReflV{T: iv.T, V: iv.V, Valid: iv.T != nil}
